@@ -15,7 +15,7 @@ the breaking mutants the static check does not flag (leads for new necessary con
 import ast, copy, importlib.util, os, random, shutil, subprocess, sys, tempfile
 import numpy as np
 
-CLEAN = os.environ.get('MUT_SRC', '/tmp/clean')
+CLEAN = os.environ.get('MUT_SRC', '/repo')
 
 
 def mutants(tree, funcs):
